@@ -125,7 +125,77 @@ class Evaluator:
         # typing.cast(T, x) is the identity on values
         if f == ("ref", "typing.cast") and len(args) == 2:
             return args[1]
+        # f(*CONST) where CONST is a module-level tuple/list display of the package: the elements themselves
+        if any(a[0] == "star" for a in args):
+            out = []
+            for a in args:
+                items = self._const_display(a[1]) if a[0] == "star" else None
+                out.extend(items if items is not None else (a,))
+            args = tuple(out)
+        inl = self._inline_helper(f, args, kw)
+        if inl is not None:
+            return inl
         return ("call", f, args, kw)
+
+    def _const_display(self, t):
+        if t[0] != "ref":
+            return None
+        mn, _, nm = t[1].rpartition(".")
+        mod = self.prog.modules.get(mn)
+        if mod is None or nm not in mod.assigns or nm in mod.functions or nm in mod.classes:
+            return None
+        v = Evaluator(self.prog, mod).expr(mod.assigns[nm], {})
+        if v is not None and v[0] in ("tuple", "list") and not any(x[0] == "star" for x in v[1]):
+            return list(v[1])
+        return None
+
+    def _inline_helper(self, f, args, kw, _depth=[0]):
+        """A call to a private, undecorated, module-level helper of the package whose body is one `return <expr>` is
+        replaced by that expression (extracting such a helper, or inlining it, is not a change of behaviour)."""
+        if f[0] != "ref" or not f[1].startswith("typelib.") or _depth[0] > 3:
+            return None
+        mn, _, nm = f[1].rpartition(".")
+        mod = self.prog.modules.get(mn)
+        if mod is None or not nm.startswith("_") or nm.startswith("__"):
+            return None
+        fi = mod.functions.get(nm)
+        if fi is None or fi.node.decorator_list or isinstance(fi.node, ast.AsyncFunctionDef):
+            return None
+        body = [st for st in fi.node.body if not (isinstance(st, ast.Expr) and isinstance(st.value, ast.Constant))]
+        if len(body) != 1 or not isinstance(body[0], ast.Return) or body[0].value is None:
+            return None
+        a = fi.node.args
+        if a.vararg or a.kwarg or any(x[0] == "star" for x in args) or any(k is None for k, _ in kw):
+            return None
+        for n in ast.walk(body[0].value):
+            if isinstance(n, (ast.Yield, ast.YieldFrom, ast.Await, ast.NamedExpr, ast.Lambda)):
+                return None
+            if isinstance(n, ast.Name) and n.id == nm:
+                return None  # recursive
+        pos = [x.arg for x in a.posonlyargs + a.args]
+        if len(args) > len(pos):
+            return None
+        env = dict(zip(pos, args))
+        allowed = set(x.arg for x in a.args + a.kwonlyargs)
+        for k, v in kw:
+            if k not in allowed or k in env:
+                return None
+            env[k] = v
+        callee = Evaluator(self.prog, mod, fi)
+        defaults = dict(zip(pos[len(pos) - len(a.defaults):], a.defaults))
+        for x, d in zip(a.kwonlyargs, a.kw_defaults):
+            if d is not None:
+                defaults[x.arg] = d
+        for name in pos + [x.arg for x in a.kwonlyargs]:
+            if name not in env:
+                if name not in defaults:
+                    return None
+                env[name] = callee.expr(defaults[name], {})
+        _depth[0] += 1
+        try:
+            return callee.expr(body[0].value, env)
+        finally:
+            _depth[0] -= 1
 
     def e_Subscript(self, e, env):
         return ("sub", self.expr(e.value, env), self.expr(e.slice, env))
@@ -311,7 +381,16 @@ def _split_guards(ev: Evaluator, test: ast.expr, env: dict) -> tuple[list, list]
             ff += _split_guards(ev, v, env)[1]
         return [(whole, True)], ff
     tm = ev.expr(test, env)
+    if tm[0] == "cmp" and tm[1] in _NEG_CMP:
+        # `a is not b` holding is `a is b` failing: guards carry the positive comparator only
+        tm = ("cmp", _NEG_CMP[tm[1]], tm[2], tm[3])
+        return [(tm, False)], [(tm, True)]
+    if tm[0] == "not":
+        return [(tm[1], False)], [(tm[1], True)]
     return [(tm, True)], [(tm, False)]
+
+
+_NEG_CMP = {"isnot": "is", "notin": "in", "!=": "=="}
 
 
 class PathEnumerator:
@@ -333,6 +412,91 @@ class PathEnumerator:
                 status = ("fall",)
             out.append(Path(s.events, status, s.env))
         return out
+
+    def _collector_loop(self, s: ast.For, st: _State) -> bool:
+        """`acc = []` … `for x in S: [if C:] acc.append(E)` is the comprehension `[E for x in S if C]` (same for
+        set.add and dict item stores, for several accumulators filled under exclusive conditions, and for the
+        `if C: continue` spelling of a filter).  Such a loop is evaluated to the comprehension terms, so that a rule
+        sees one spelling.  Anything else in the body: not a collector loop, enumerated as a loop."""
+        if s.orelse:
+            return False
+        ev = self.ev
+        env2 = dict(st.env)
+        it = ev.expr(s.iter, env2)
+        ev.bind_target(s.target, T.elem(it), env2)
+        records: list[tuple] = []  # (container, kind, conds, payload asts, env snapshot)
+        aliases: dict[str, list] = {}
+
+        def container(name):
+            v = env2.get(name)
+            if v in (("list", ()), ("set", ()), ("dict", ())):
+                return v[0]
+            if v is not None and T.is_call_to(v, "builtins.list", "builtins.set", "builtins.dict") and not v[2] and not v[3]:
+                return T.refname(v[1]).rsplit(".", 1)[-1]
+            return None
+
+        def scan(stmts, conds) -> bool:
+            for i, b in enumerate(stmts):
+                if isinstance(b, ast.Expr) and isinstance(b.value, ast.Constant):
+                    continue
+                if isinstance(b, ast.If):
+                    body = list(b.body)
+                    if body and isinstance(body[-1], ast.Continue) and not b.orelse:
+                        if not scan(body[:-1], conds + [(b.test, True, dict(env2))]):
+                            return False
+                        return scan(stmts[i + 1 :], conds + [(b.test, False, dict(env2))])
+                    if not scan(body, conds + [(b.test, True, dict(env2))]):
+                        return False
+                    if not scan(b.orelse, conds + [(b.test, False, dict(env2))]):
+                        return False
+                    continue
+                if isinstance(b, ast.Expr) and isinstance(b.value, ast.Call) and isinstance(b.value.func, ast.Attribute) and isinstance(b.value.func.value, ast.Name) and len(b.value.args) == 1 and not b.value.keywords:
+                    name, meth = b.value.func.value.id, b.value.func.attr
+                    targets = aliases.get(name) or [(name, [])]
+                    for tname, extra in targets:
+                        kind = container(tname)
+                        if (kind, meth) not in (("list", "append"), ("set", "add")):
+                            return False
+                        records.append((tname, kind, conds + extra, (b.value.args[0],), dict(env2)))
+                    continue
+                if isinstance(b, ast.Assign) and len(b.targets) == 1 and isinstance(b.targets[0], ast.Subscript) and isinstance(b.targets[0].value, ast.Name) and container(b.targets[0].value.id) == "dict":
+                    records.append((b.targets[0].value.id, "dict", list(conds), (b.targets[0].slice, b.value), dict(env2)))
+                    continue
+                if isinstance(b, (ast.Assign, ast.AnnAssign)) and (isinstance(b, ast.AnnAssign) or len(b.targets) == 1):
+                    tg = b.target if isinstance(b, ast.AnnAssign) else b.targets[0]
+                    if not isinstance(tg, ast.Name) or b.value is None or container(tg.id) is not None:
+                        return False
+                    v = b.value
+                    if isinstance(v, ast.IfExp) and isinstance(v.body, ast.Name) and isinstance(v.orelse, ast.Name) and container(v.body.id) and container(v.orelse.id):
+                        aliases[tg.id] = [(v.body.id, [(v.test, True, dict(env2))]), (v.orelse.id, [(v.test, False, dict(env2))])]
+                        continue
+                    if any(isinstance(n, (ast.Yield, ast.YieldFrom, ast.Await, ast.NamedExpr)) for n in ast.walk(v)):
+                        return False
+                    env2[tg.id] = ev.expr(v, env2)
+                    aliases.pop(tg.id, None)
+                    continue
+                return False
+            return True
+
+        if not scan(list(s.body), []) or not records:
+            return False
+        names = [r[0] for r in records]
+        if len(set(names)) != len(names):
+            return False
+        tsrc = ast.unparse(s.target)
+        for name, kind, conds, payload, envr in records:
+            cterms = []
+            for test, pol, envc in conds:
+                tm = ev.expr(test, envc)
+                cterms.append(tm if pol else T.negate(tm))
+            if kind == "dict":
+                elt = ("pair", ev.expr(payload[0], envr), ev.expr(payload[1], envr))
+            else:
+                elt = ev.expr(payload[0], envr)
+            comp = ("comp", kind, elt, ((it, tsrc),), tuple(cterms))
+            st.env[name] = comp
+            st.events.append(("assign", name, comp))
+        return True
 
     # status: ('normal',) ('return', term) ('raise', term) ('break',) ('continue',)
     def _block(self, stmts: list[ast.stmt], st: _State) -> list[tuple[_State, tuple]]:
@@ -430,6 +594,8 @@ class PathEnumerator:
                 b.events.append(("guard", g[0], g[1]))
             return self._block(s.body, a) + self._block(s.orelse, b)
         if isinstance(s, ast.For):
+            if self._collector_loop(s, st):
+                return [(st, N)]
             it = ev.expr(s.iter, st.env)
             skip = st.fork()
             skip.events.append(("loop", it, 0))
